@@ -1,0 +1,196 @@
+//go:build verif
+// +build verif
+
+// Contracts for store/item.go: payload flags, server-side compression, value hash, copies
+// (properties C10 and C12). Checked by /verif/govc; compiled only with -tags verif.
+//
+// The QuickLZ codecs are modelled by the assumed contracts in quicklz/verif_contracts.go over the
+// uninterpreted functions quicklz.QlzD / QlzValid / QlzVhash. Those have dummy Go bodies: every
+// contract here that can reach them carries the `opaque` clause below (both the Go name, used by the
+// symbolic executor, and the SMT name, used by the script printer, must be listed).
+
+package store
+
+import (
+	"github.com/douban/gobeansdb/cmem"
+	"github.com/douban/gobeansdb/quicklz"
+)
+
+var _ = cmem.AllocRL
+var _ = quicklz.QlzD
+
+// cost charged to cmem.AllocRL for a buffer (same definitions as in cmem/verif_contracts.go):
+// only C-allocated buffers (Addr != 0) are counted, with their capacity.
+func allocCount(addr uintptr) int64 {
+	if addr != 0 {
+		return 1
+	}
+	return 0
+}
+func allocSize(addr uintptr, cap_ int) int64 {
+	if addr != 0 {
+		return int64(cap_)
+	}
+	return 0
+}
+
+// the server-side compression bit is the only flag bit the server may touch
+func specClientFlags(flag uint32) uint32 { return flag &^ FLAG_COMPRESS }
+func specIsCompressed(flag uint32) bool  { return flag&FLAG_COMPRESS != 0 }
+
+// ---------- 1. flag / size / hash accessors ----------
+
+//@ func (p *Payload) IsCompressed
+//@   props C10
+//@   ints bv
+//@   ensures result0 == specIsCompressed(p.Flag)
+
+//@ func (p *Payload) RawValueSize
+//@   props C10
+//@   ints bv
+//@   requires specIsCompressed(p.Flag) ==> quicklz.SpecHeaderOK(p.Body)
+//@   ensures !specIsCompressed(p.Flag) ==> result0 == len(p.Body)
+//@   ensures specIsCompressed(p.Flag) ==> result0 == quicklz.SpecSizeC(p.Body)
+
+//@ func (p *Payload) DiffSizeAfterDecompressed
+//@   props C10 C12
+//@   ints bv
+//@   requires specIsCompressed(p.Flag) ==> quicklz.SpecHeaderOK(p.Body)
+//@   ensures !specIsCompressed(p.Flag) ==> result0 == 0
+//@   ensures specIsCompressed(p.Flag) ==> result0 == quicklz.SpecSizeD(p.Body)-p.Cap
+
+//@ func (p *Payload) CalcValueHash
+//@   props C10 C16
+//@   ints bv
+//@   requires len(p.Body) < 1<<31
+//@   modifies p.ValueHash
+//@   ensures p.ValueHash == specVhash(p.Body)
+
+// Getvhash: the hash handed to synchronisation must be that of the uncompressed bytes.
+//@ func (p *Payload) Getvhash
+//@   props C10 C12 C16
+//@   ints bv
+//@   opaque QlzD spec_quicklz_QlzD QlzValid spec_quicklz_QlzValid QlzVhash spec_quicklz_QlzVhash
+//@   requires len(p.Body) < 1<<31
+//@   requires specIsCompressed(p.Flag) && quicklz.SpecHeaderOK(p.Body) ==> quicklz.SpecSizeD(p.Body) < 1<<31   // precondition of Getvhash on the decompressed buffer
+//@   modifies cmem.AllocRL.Size, cmem.AllocRL.MaxSize, cmem.AllocRL.Count, cmem.AllocRL.MaxCount
+//@   ensures p.Ver < 0 ==> result0 == 0
+//@   ensures p.Ver >= 0 && !specIsCompressed(p.Flag) ==> result0 == specVhash(p.Body)
+//@   ensures p.Ver >= 0 && specIsCompressed(p.Flag) ==> result0 == quicklz.QlzVhash(p.Body)
+//@   ensures cmem.AllocRL.Count == old(cmem.AllocRL.Count) && cmem.AllocRL.Size == old(cmem.AllocRL.Size)
+
+// ---------- 2. Decompress ----------
+
+//@ func (p *Payload) Decompress
+//@   props C10 C12
+//@   ints bv
+//@   opaque QlzD spec_quicklz_QlzD QlzValid spec_quicklz_QlzValid QlzVhash spec_quicklz_QlzVhash
+//@   modifies p.Flag, p.Body, p.Addr, p.Cap, cmem.AllocRL.Size, cmem.AllocRL.MaxSize, cmem.AllocRL.Count, cmem.AllocRL.MaxCount
+//@   ensures !specIsCompressed(old(p.Flag)) ==> err == nil
+//@   ensures !specIsCompressed(old(p.Flag)) || err != nil ==> p.Flag == old(p.Flag) && sameSlice(p.Body, old(p.Body)) && p.Addr == old(p.Addr) && p.Cap == old(p.Cap)
+//@   ensures !specIsCompressed(old(p.Flag)) ==> cmem.AllocRL.Count == old(cmem.AllocRL.Count) && cmem.AllocRL.Size == old(cmem.AllocRL.Size)
+//@   ensures err != nil ==> cmem.AllocRL.Count == old(cmem.AllocRL.Count) && cmem.AllocRL.Size == old(cmem.AllocRL.Size)   // FAILS: buffer returned by CDecompress together with an error is dropped
+//@   ensures specIsCompressed(old(p.Flag)) && err == nil ==> p.Flag == old(p.Flag)&^FLAG_COMPRESS
+//@   ensures specIsCompressed(old(p.Flag)) && err == nil ==> len(p.Body) == old(quicklz.SpecSizeD(p.Body)) && p.Cap == len(p.Body) && fresh(p.Body)
+//@   ensures specIsCompressed(old(p.Flag)) && err == nil ==> forall(0, len(p.Body), func(i int) bool { return p.Body[i] == old(quicklz.QlzD(p.Body, i)) })
+//@   ensures specIsCompressed(old(p.Flag)) && err == nil ==> specVhash(p.Body) == old(quicklz.QlzVhash(p.Body))
+//@   ensures specIsCompressed(old(p.Flag)) && err == nil ==> cmem.AllocRL.Count == old(cmem.AllocRL.Count)+allocCount(p.Addr)-allocCount(old(p.Addr))
+//@   ensures specIsCompressed(old(p.Flag)) && err == nil ==> cmem.AllocRL.Size == old(cmem.AllocRL.Size)+allocSize(p.Addr, p.Cap)-allocSize(old(p.Addr), old(p.Cap))
+
+// ---------- 3. TryCompress ----------
+
+// NeedCompress: the content sniffing (net/http) is abstracted; only safety is checked.
+//@ func NeedCompress
+//@   props C10
+//@   ints bv
+//@   requires Conf != nil
+
+// Whatever the compression decision (size thresholds, content type, ratio, out of memory), only the
+// server compression bit may change, and the body changes only together with it.
+//@ func (rec *Record) TryCompress
+//@   props C10 C12
+//@   ints bv
+//@   opaque QlzD spec_quicklz_QlzD QlzValid spec_quicklz_QlzValid QlzVhash spec_quicklz_QlzVhash
+//@   requires rec.Payload != nil && Conf != nil && len(rec.Key) <= 255 && len(rec.Payload.Body) < 1<<31-400
+//@   modifies rec.Payload.Flag, rec.Payload.Body, rec.Payload.Addr, rec.Payload.Cap, cmem.AllocRL.Size, cmem.AllocRL.MaxSize, cmem.AllocRL.Count, cmem.AllocRL.MaxCount
+//@   ensures specClientFlags(rec.Payload.Flag) == specClientFlags(old(rec.Payload.Flag))
+//@   ensures old(rec.Payload.Flag)&FLAG_CLIENT_COMPRESS != 0 || old(rec.Payload.Flag)&FLAG_COMPRESS != 0 ==> rec.Payload.Flag == old(rec.Payload.Flag)
+//@   ensures rec.Payload.Flag == old(rec.Payload.Flag) ==> sameSlice(rec.Payload.Body, old(rec.Payload.Body)) && rec.Payload.Addr == old(rec.Payload.Addr) && rec.Payload.Cap == old(rec.Payload.Cap)
+//@   ensures rec.Payload.Ver == old(rec.Payload.Ver) && rec.Payload.TS == old(rec.Payload.TS) && rec.Payload.ValueHash == old(rec.Payload.ValueHash)
+//@   ensures rec.Payload.Flag != old(rec.Payload.Flag) ==> rec.Payload.Flag == old(rec.Payload.Flag)|FLAG_COMPRESS && old(rec.Payload.Ver) >= 0
+//@   ensures rec.Payload.Flag != old(rec.Payload.Flag) ==> quicklz.SpecHeaderOK(rec.Payload.Body) && quicklz.SpecSizeC(rec.Payload.Body) == len(rec.Payload.Body) && quicklz.SpecSizeD(rec.Payload.Body) == old(len(rec.Payload.Body))
+//@   ensures rec.Payload.Flag != old(rec.Payload.Flag) ==> forall(0, old(len(rec.Payload.Body)), func(i int) bool { return quicklz.QlzD(rec.Payload.Body, i) == old(rec.Payload.Body[i]) })
+//@   ensures rec.Payload.Flag != old(rec.Payload.Flag) ==> quicklz.QlzVhash(rec.Payload.Body) == old(specVhash(rec.Payload.Body))
+//@   ensures rec.Payload.Flag != old(rec.Payload.Flag) ==> cmem.AllocRL.Count == old(cmem.AllocRL.Count)+allocCount(rec.Payload.Addr)-allocCount(old(rec.Payload.Addr))
+//@   ensures rec.Payload.Flag != old(rec.Payload.Flag) ==> cmem.AllocRL.Size == old(cmem.AllocRL.Size)+allocSize(rec.Payload.Addr, rec.Payload.Cap)-allocSize(old(rec.Payload.Addr), old(rec.Payload.Cap))
+//@   ensures rec.Payload.Flag == old(rec.Payload.Flag) ==> cmem.AllocRL.Count == old(cmem.AllocRL.Count) && cmem.AllocRL.Size == old(cmem.AllocRL.Size)   // FAILS: CCompress can return !ok with a charged buffer (scratch malloc failed after dst.Alloc), which TryCompress drops
+
+// ---------- 4. copies ----------
+// Content equality of the copy cannot be stated here: the cmem.CArray.Copy contract does not give it
+// (see the report: the clause is refuted in govc because the entry heap does not know that the array
+// behind arr.Body is allocated, so Alloc's fresh array may alias it).
+
+//@ func (p *Payload) Copy
+//@   props C10 C12 C01
+//@   ints bv
+//@   modifies cmem.AllocRL.Size, cmem.AllocRL.MaxSize, cmem.AllocRL.Count, cmem.AllocRL.MaxCount
+//@   ensures result0 != nil ==> fresh(result0) && result0.TS == p.TS && result0.Flag == p.Flag && result0.Ver == p.Ver && result0.ValueHash == p.ValueHash && result0.RecSize == p.RecSize
+//@   ensures result0 != nil ==> len(result0.Body) == len(p.Body)
+//@   ensures result0 != nil && p.Addr == 0 ==> result0.Addr == 0 && result0.Cap == 0
+//@   ensures result0 != nil && p.Addr != 0 ==> result0.Cap == len(p.Body)
+//@   ensures result0 != nil ==> cmem.AllocRL.Count == old(cmem.AllocRL.Count)+allocCount(result0.Addr) && cmem.AllocRL.Size == old(cmem.AllocRL.Size)+allocSize(result0.Addr, result0.Cap)
+//@   ensures result0 == nil ==> cmem.AllocRL.Count == old(cmem.AllocRL.Count) && cmem.AllocRL.Size == old(cmem.AllocRL.Size)
+
+//@ func (rec *Record) Copy
+//@   props C10 C12 C01
+//@   ints bv
+//@   requires rec.Payload != nil
+//@   modifies cmem.AllocRL.Size, cmem.AllocRL.MaxSize, cmem.AllocRL.Count, cmem.AllocRL.MaxCount
+//@   ensures fresh(result0) && sameSlice(result0.Key, rec.Key)
+//@   ensures result0.Payload != nil ==> fresh(result0.Payload) && result0.Payload.TS == rec.Payload.TS && result0.Payload.Flag == rec.Payload.Flag && result0.Payload.Ver == rec.Payload.Ver && result0.Payload.ValueHash == rec.Payload.ValueHash
+//@   ensures result0.Payload != nil ==> len(result0.Payload.Body) == len(rec.Payload.Body)
+//@   ensures result0.Payload != nil ==> cmem.AllocRL.Count == old(cmem.AllocRL.Count)+allocCount(result0.Payload.Addr) && cmem.AllocRL.Size == old(cmem.AllocRL.Size)+allocSize(result0.Payload.Addr, result0.Payload.Cap)
+//@   ensures result0.Payload == nil ==> cmem.AllocRL.Count == old(cmem.AllocRL.Count) && cmem.AllocRL.Size == old(cmem.AllocRL.Size)
+
+// ---------- 5. round trip (ghost code) ----------
+// set path then get path: CalcValueHash, TryCompress (any decision), later Decompress. If the
+// decompression succeeds the client sees exactly the flags, length, bytes and value hash that were
+// set, whether or not the server compressed.
+func lemmaCompressRoundTrip(rec *Record) (res bool, err error) {
+	p := rec.Payload
+	flag, n := p.Flag, len(p.Body)
+	p.CalcValueHash()
+	vh := p.ValueHash
+	rec.TryCompress()
+	stored := p.ValueHash // what goes into the index / is offered to synchronisation
+	err = p.Decompress()
+	if err != nil {
+		return true, err
+	}
+	return p.Flag == flag && len(p.Body) == n && stored == vh && specVhash(p.Body) == vh, nil
+}
+
+//@ func lemmaCompressRoundTrip
+//@   props C10
+//@   ints bv
+//@   opaque QlzD spec_quicklz_QlzD QlzValid spec_quicklz_QlzValid QlzVhash spec_quicklz_QlzVhash
+//@   requires rec != nil && rec.Payload != nil && Conf != nil && len(rec.Key) <= 255 && len(rec.Payload.Body) < 1<<31-400
+//@   requires rec.Payload.Flag&FLAG_COMPRESS == 0
+//@   modifies rec.Payload.ValueHash, rec.Payload.Flag, rec.Payload.Body, rec.Payload.Addr, rec.Payload.Cap, cmem.AllocRL.Size, cmem.AllocRL.MaxSize, cmem.AllocRL.Count, cmem.AllocRL.MaxCount
+//@   ensures res
+
+// the same round trip, byte level (the FNV fold is kept opaque here: it only slows the solvers down)
+func lemmaCompressRoundTripBytes(rec *Record) (err error) {
+	rec.TryCompress()
+	return rec.Payload.Decompress()
+}
+
+//@ func lemmaCompressRoundTripBytes
+//@   props C10
+//@   ints bv
+//@   opaque QlzD spec_quicklz_QlzD QlzValid spec_quicklz_QlzValid QlzVhash spec_quicklz_QlzVhash SpecFnv1a spec_utils_SpecFnv1a
+//@   requires rec != nil && rec.Payload != nil && Conf != nil && len(rec.Key) <= 255 && len(rec.Payload.Body) < 1<<31-400
+//@   requires rec.Payload.Flag&FLAG_COMPRESS == 0
+//@   modifies rec.Payload.Flag, rec.Payload.Body, rec.Payload.Addr, rec.Payload.Cap, cmem.AllocRL.Size, cmem.AllocRL.MaxSize, cmem.AllocRL.Count, cmem.AllocRL.MaxCount
+//@   ensures err == nil ==> rec.Payload.Flag == old(rec.Payload.Flag) && len(rec.Payload.Body) == old(len(rec.Payload.Body))
+//@   ensures err == nil ==> forall(0, old(len(rec.Payload.Body)), func(i int) bool { return rec.Payload.Body[i] == old(rec.Payload.Body[i]) })
